@@ -3,6 +3,7 @@ package chainsim
 import (
 	"bytes"
 	"fmt"
+	"os"
 	"sort"
 	"sync"
 
@@ -533,6 +534,9 @@ func (m *Monitor) onForged(n *Node) {
 				simkit.Probe("honest_generator_contradicted_itself")
 				m.report("C15", "self-contradiction", "signed-headers", "validator %s on %s signed header (height %d, maxHeightPrevoted %d, maxHeightGenerated %d) which contradicts its earlier header (height %d, maxHeightPrevoted %d, maxHeightGenerated %d)",
 					short(v.Address), n.Name, h.Height, h.MaxHeightPrevoted, h.MaxHeightGenerated, o.Height, o.MaxHeightPrevoted, o.MaxHeightGenerated)
+				if os.Getenv("VERIF_ALSO") != "" {
+					fmt.Printf("signed so far: %+v\n", list)
+				}
 				break
 			}
 		}
